@@ -118,6 +118,96 @@ class DifferentialCheck(core.CheckBase):
                 '%s: parsing the specification encoding (%s..) does not recover the encoded values: differs at %s' % (
                     pair.label, pair.wire[:32].hex(), structural.diff_path(expected_state, parsed_state)), case))
         found.extend(self.extra_oracles(pair, parsed, case))
+        found.extend(self.edit_consistency(pair, case))
+        return found
+
+    @staticmethod
+    def rebuilt(obj):
+        """A new object of the same class built through the constructor from the current field values of `obj`."""
+        import attr  # pylint: disable=import-outside-toplevel
+        kwargs = {}
+        for field in attr.fields(type(obj)):
+            if field.init:
+                value = getattr(obj, field.name)
+                kwargs[field.name.lstrip('_')] = copy.copy(value) if isinstance(value, (set, list, dict, bytearray)) else value
+        return type(obj)(**kwargs)
+
+    def edit_consistency(self, pair, case):
+        """compose() is a function of the current field values: after the owner edits the object in place (toggles a flag in a
+        set, appends to / pops from a vector or byte array, re-assigns a field), it must compose to what a fresh object built from
+        the same values composes to - nothing remembered from before the edit (memoised encodings, layout decisions, tags)."""
+        import attr  # pylint: disable=import-outside-toplevel
+        import enum  # pylint: disable=import-outside-toplevel
+        found = []
+        if not attr.has(pair.cls) or not hasattr(pair.obj, 'compose'):
+            return found
+        try:
+            obj = copy.deepcopy(pair.obj)
+            obj.compose()       # whatever is remembered gets remembered now
+            for probe in ('key_tag', 'fingerprints', 'ja3', 'hassh'):
+                if hasattr(type(obj), probe):
+                    value = getattr(obj, probe)
+                    if callable(value):
+                        value()
+        except Exception:  # pylint: disable=broad-except
+            return found
+        edits = []
+        for field in attr.fields(pair.cls):
+            value = getattr(obj, field.name, None)
+            if isinstance(value, set) and value and all(isinstance(member, enum.Enum) for member in value):
+                for member in list(type(next(iter(value))))[:40]:
+                    edits.append((field.name, 'toggle %s' % member.name, value, member))
+            elif isinstance(value, bytearray):
+                edits.append((field.name, 'extend', value, None))
+            elif hasattr(value, '_items_size') and hasattr(value, 'append') and len(value):
+                edits.append((field.name, 'append+pop', value, None))
+        for field_name, label, container, member in edits[:60]:
+            undo = None
+            try:
+                if member is not None:
+                    if member in container:
+                        container.discard(member)
+                        undo = lambda c=container, m=member: c.add(m)
+                    else:
+                        container.add(member)
+                        undo = lambda c=container, m=member: c.discard(m)
+                elif label == 'extend':
+                    container += b'\x01'
+                    undo = lambda c=container: c.pop()
+                else:
+                    container.append(container[0])
+                    undo = lambda c=container: c.pop()
+            except Exception:  # pylint: disable=broad-except
+                continue
+            self.stats['in_place_edits_composed'] += 1
+            try:
+                try:
+                    fresh_obj = self.rebuilt(obj)
+                    if any(not structural.equal(getattr(fresh_obj, field.name), getattr(obj, field.name))
+                           for field in attr.fields(pair.cls) if field.init):
+                        continue    # the constructor normalises dependent fields: the edited object is not one it would build
+                    fresh = bytes(fresh_obj.compose())
+                except Exception:  # pylint: disable=broad-except
+                    continue        # the edited values do not make a constructible object: nothing to compare with
+                try:
+                    edited = bytes(obj.compose())
+                except Exception as e:  # pylint: disable=broad-except
+                    found.append(self.violation(
+                        'stale-after-edit|%s|%s' % (pair.cls.__name__, field_name),
+                        '%s: after %s on .%s compose() raises %r although a fresh object with the same values composes' % (
+                            pair.label, label, field_name, e), case))
+                    break
+                if edited != fresh:
+                    found.append(self.violation(
+                        'stale-after-edit|%s|%s' % (pair.cls.__name__, field_name),
+                        '%s: after %s on .%s compose() gives %s.. (%d bytes), a fresh object with the same values gives %s.. (%d bytes)' % (
+                            pair.label, label, field_name, edited[:16].hex(), len(edited), fresh[:16].hex(), len(fresh)), case))
+                    break
+            finally:
+                try:
+                    undo()
+                except Exception:  # pylint: disable=broad-except
+                    break
         return found
 
     def extra_oracles(self, pair, parsed, case):  # pylint: disable=unused-argument
